@@ -622,6 +622,17 @@ func GenExpr(t *rapid.T) *ExprSpec {
 		// the twin's levels: the same numbers dealt out differently (per original level, so that
 		// one level keeps one associativity)
 		lvPerm := rapid.Permutation(lv).Draw(t, "twinlevels")
+		if rapid.Bool().Draw(t, "twinOwnNumbers") {
+			// ... or level numbers of its own that interleave with e's (levels are compared within
+			// one rule only; a number says nothing about another rule's numbers)
+			own := make([]int, 0, len(lv))
+			c := 0
+			for range lv {
+				c += levelGaps[ri(t, 0, len(levelGaps)-1, "twingap")]
+				own = append(own, c)
+			}
+			lvPerm = rapid.Permutation(own).Draw(t, "twinownlevels")
+		}
 		remap := map[int]OpInfo{}
 		for i, l := range lv {
 			remap[l] = OpInfo{Level: lvPerm[i], Right: rapid.Bool().Draw(t, "twinright")}
